@@ -275,6 +275,8 @@ pub fn run_case(case: &Case, keep: Option<&BTreeSet<usize>>, scratch: &Path, cas
     // check).
     if let Some(t) = match case.profile.name {
         "point" => Some("C01"),
+        // thousands of keys per table: point reads behind several filter / index partitions (seed C01f)
+        "wide" => Some("C01"),
         "snapshot" => Some("C02"),
         "scan" => Some("C03"),
         "reopen" => Some("C04"),
